@@ -71,7 +71,14 @@ func dumpFn(p *Prog, name, inl string, verbose bool) int {
 		for j, v := range t.Vals {
 			vs[j] = shortName(v.Key())
 		}
-		fmt.Printf("--- #%d %s at %s: (%s)\n", i, t.Kind, p.InstrPos(t.Instr), strings.Join(vs, ", "))
+		mark := ""
+		if newBounds(t, -1).inconsistent() {
+			mark = " [ARITH-INCONSISTENT]"
+		}
+		if timeInconsistent(t) {
+			mark += " [TIME-INCONSISTENT]"
+		}
+		fmt.Printf("--- #%d %s at %s: (%s)%s\n", i, t.Kind, p.InstrPos(t.Instr), strings.Join(vs, ", "), mark)
 		for _, f := range t.St.facts {
 			fmt.Printf("    fact %s\n", f)
 		}
